@@ -508,16 +508,46 @@ class Interp:
                     name = [r.exc[1].split("(")[0].split(".")[-1]]
                 elif r.exc[0] == "cls":
                     name = [k.name for k in self.repo.mro(r.exc[1])]
+                raised_cls = r.exc[1].cls if r.exc[0] == "obj" else (r.exc[1] if r.exc[0] == "cls" else None)
                 for h in s.handlers:
                     hn = []
+                    matched = False
                     if h.type is not None:
                         ts = h.type.elts if isinstance(h.type, ast.Tuple) else [h.type]
-                        hn = [unparse(t).split(".")[-1] for t in ts]
-                    if h.type is None or "Exception" in hn or "BaseException" in hn or (name and any(n in hn for n in name)):
+                        mod = env.get("@module")
+                        for t in ts:
+                            k_ = self.repo.resolve_expr_class(mod, t) if mod is not None else None
+                            if k_ is not None:
+                                # a class of this repository: caught iff the raised object is an instance of it (an opaque
+                                # raised value is matched by name)
+                                if raised_cls is not None:
+                                    matched = matched or k_ in self.repo.mro(raised_cls)
+                                else:
+                                    hn.append(k_.name)
+                                continue
+                            nm = unparse(t).split(".")[-1]
+                            if isinstance(t, ast.Name) and mod is not None:
+                                rr = self.repo.resolve_name(mod, t.id)
+                                if rr and rr[0] == "ext" and isinstance(rr[1], str):
+                                    nm = rr[1].split(".")[-1]       # `import X as Y`: the handler names X
+                            if nm in ("Exception", "BaseException"):
+                                matched = True
+                            elif raised_cls is not None:
+                                # an external class: catches a repository exception only if that derives from it
+                                matched = matched or any(nm == b.split(".")[-1] for kk in self.repo.mro(raised_cls) for b in kk.ext_bases)
+                            else:
+                                hn.append(nm)
+                    if h.type is None or matched or (raised_cls is None and name and any(n in hn for n in name)):
                         if h.name:
                             env[h.name] = r.exc
                         env["@exc"] = r.exc
-                        self.block(h.body, env, depth)
+                        try:
+                            self.block(h.body, env, depth)
+                        finally:
+                            if h.name:
+                                # Python 3 unbinds the handler's name when the handler ends: a later read is an
+                                # UnboundLocalError, not the exception
+                                env[h.name] = ("unset", h.name)
                         break
                 else:
                     raise
@@ -1210,6 +1240,8 @@ class Interp:
                     if ("method:" + name) in self.hooks:
                         return ("bound", b, name)     # a method of an external base class the rule wants to observe
                     return ("fn", "inherited." + name, [b])
+            if o.cls is None and ("method:" + name) in self.hooks:
+                return ("bound", b, name)         # a stand-in object whose method the rule observes
             return ("unset", name)
         if k == "node":
             n = b[1]
@@ -1415,7 +1447,7 @@ class Interp:
         if name in ("bytes", "bytearray") and a0 is not None and a0[0] == "list" and not (len(a0) > 2 and a0[2]) and len(args) == 1 \
                 and all(x[0] == "c" and isinstance(x[1], int) and not isinstance(x[1], bool) and 0 <= x[1] < 256 for x in a0[1]):
             return ("c", bytes(x[1] for x in a0[1]))
-        if name in ("str", "int", "float", "bool", "bytes", "bytearray", "repr", "ord", "chr", "abs", "round", "hex"):
+        if name in ("str", "int", "float", "bool", "bytes", "bytearray", "repr", "ord", "chr", "abs", "round", "hex", "format", "bin", "oct"):
             if a0 is not None and a0[0] == "c":
                 try:
                     import builtins
@@ -1674,12 +1706,18 @@ class Interp:
             # and the call is recorded (dispatcher / protocol / manager calls are effects some rules look at)
             recv[2].extend(list(args) + list(kwargs.values()))
             self.emit("CALL", recv[1] + "." + name, list(args))
-            h = self.hooks.get("ext:" + recv[1] + "." + name)
+            h = self.hooks.get("ext:" + recv[1] + "." + name) or self.hooks.get("ext:*." + name)
             if h is not None:
                 # the environment's reaction to this call (e.g. a dispatcher calling back synchronously)
                 r = h(self, recv, args, kwargs, env, depth, e)
                 if r is not None:
                     return r
+        h = self.hooks.get("anymethod:" + name)
+        if h is not None:
+            # a method of a value the interpreter knows nothing about (the result of a library call): rules may observe it
+            r = h(self, recv, args, kwargs, env, depth, e)
+            if r is not None:
+                return r
         return ("fn", name, [recv] + list(args) + list(kwargs.values()))
 
 
